@@ -16,7 +16,7 @@ META = {
         "consumption argument / pool.quantity −= / future claim after split rescaling) are the same term; pooling uses one "
         "term for pool.quantity +=, for the cost lookup and for marking the lots. R4 (MPT): adding an acquisition is dominated "
         "by the `claimed > amount → Err` guard on the same values. R5 (MPT): every Ok exit of the cascade after matching lies "
-        "on the false edge of `remaining > 0`. R7: SPLIT multiplies and UNSPLIT divides share counts by the line's own ratio (shared with C10-R1/R2). R8: an enumerate index used as key of the shared per-line tables is taken before any element-dropping stage (shared with C09-R5). Decides sameness of terms and shape of paths; not the conservation equations. R9: a loop that spreads a quantity over the lots of a date is left only when the lots or the quantity are used up (no exit that depends on the current lot). R10 (every line counts once): no call in the matcher or the calculator removes elements from a vector of transactions (dedup, retain, truncate, drain, pop, remove, clear, …)."),
+        "on the false edge of `remaining > 0`. R7: SPLIT multiplies and UNSPLIT divides share counts by the line's own ratio (shared with C10-R1/R2), and within one date the SPLIT/UNSPLIT pass strictly follows the pooling of that date's purchases (shared with C01-R2). R8: an enumerate index used as key of the shared per-line tables is taken before any element-dropping stage (shared with C09-R5). Decides sameness of terms and shape of paths; not the conservation equations. R9: a loop that spreads a quantity over the lots of a date is left only when the lots or the quantity are used up (no exit that depends on the current lot). R10 (every line counts once): no call in the matcher or the calculator removes elements from a vector of transactions (dedup, retain, truncate, drain, pop, remove, clear, …)."),
     "trusted_base": ["rust_decimal operator semantics", "rustc MIR + resolution", "copy propagation over single-assignment temporaries is value-preserving"],
 }
 
@@ -391,6 +391,11 @@ def run(ctx, rep):
     import rules.c09 as c09
     c09.shared_index_space(R, rep, "R8")
     every_line_counts(R, rep)
+    # a date's purchases are all pooled before that date's SPLIT/UNSPLIT lines rescale the pool (separate passes, shared with
+    # C01-R2 / C10-R7): applied line by line, a same-day BUY written below the SPLIT is pooled at its old count — 100 held, SPLIT 2
+    # and BUY 30 on one date close at 230 shares instead of 260 (seeded change C02-s9)
+    import rules.c10 as c10b
+    c10b.phase_order(R, rep, "R7")
 
 
 THINNING = ("dedup", "dedup_by", "dedup_by_key", "retain", "retain_mut", "truncate", "drain", "pop", "remove", "swap_remove", "clear", "split_off",
